@@ -175,6 +175,80 @@ loop:
 	w.Count("router.conc")
 }
 
+// many subscriptions, a batch of them unsubscribed at the same moment from as many goroutines: afterwards every
+// unsubscribed channel is closed (once), every other subscription is open, still routed, and gets the next event
+// exactly once; nothing panics
+func routerUnsubStorm(rng *rand.Rand, w *Writer) {
+	const nsub, nvict = 1500, 40
+	r := server.NewEventRouter[int, int](2)
+	chans := make([]<-chan int, nsub)
+	for i := range chans {
+		chans[i] = r.Subscribe(i % 7)
+	}
+	// victims among the last routes (the longest lookups), never two for the same channel
+	victim := map[int]bool{}
+	for len(victim) < nvict {
+		victim[nsub-1-rng.Intn(120)] = true
+	}
+	panics := make(chan string, nvict)
+	start := make(chan struct{})
+	var wg sync.WaitGroup
+	for i := range victim {
+		wg.Add(1)
+		go func(i int) {
+			defer wg.Done()
+			defer func() {
+				if x := recover(); x != nil {
+					panics <- fmt.Sprint(x)
+				}
+			}()
+			<-start
+			r.Unsubscribe(chans[i])
+		}(i)
+	}
+	close(start)
+	wg.Wait()
+	obs := "ok"
+	select {
+	case p := <-panics:
+		obs = "PANIC:" + strings.ReplaceAll(p, " ", "_")
+	default:
+	}
+	if obs == "ok" {
+		for id := 0; id < 7; id++ {
+			r.Publish(id, 1000+id)
+		}
+		for i, ch := range chans {
+			var got []int
+			closed := false
+		drain:
+			for {
+				select {
+				case v, ok := <-ch:
+					if !ok {
+						closed = true
+						break drain
+					}
+					got = append(got, v)
+				default:
+					break drain
+				}
+			}
+			if victim[i] && !closed {
+				obs = "victim-left-open"
+				break
+			}
+			if !victim[i] && (closed || len(got) != 1 || got[0] != 1000+i%7) {
+				obs = fmt.Sprintf("survivor-wrong:closed=%v,got=%v", closed, got)
+				obs = strings.ReplaceAll(obs, " ", "_")
+				break
+			}
+		}
+	}
+	w.Case("routerconc", []string{"k=storm"}, obs)
+	w.Count("router.storm")
+}
+
 func suiteC20(rng *rand.Rand, tier string, w *Writer) {
 	n, m := 300, 25
 	if tier == "thorough" {
@@ -185,5 +259,8 @@ func suiteC20(rng *rand.Rand, tier string, w *Writer) {
 	}
 	for i := 0; i < m; i++ {
 		routerConc(rng, w)
+	}
+	for i := 0; i < m/2+4; i++ {
+		routerUnsubStorm(rng, w)
 	}
 }
